@@ -26,7 +26,7 @@ func tsRunBatch(w *Worker, b *gen.Batch, all []*obs) {
 		}
 		w.Count("ts_type_spans_erased", int64(len(deleted)))
 		idx[it.Pkg] = o
-		jobs = append(jobs, tsrun.Job{Pkg: it.Pkg, File: js, Inputs: o.inputs, NStates: o.vw.NStates, NSyms: len(o.vw.V.G.Symbols)})
+		jobs = append(jobs, tsrun.Job{Pkg: it.Pkg, File: js, Inputs: o.inputs, NStates: o.vw.NStates, NSyms: len(o.vw.V.G.Symbols), Fuel: o.fuel()})
 	}
 	if len(jobs) == 0 {
 		return
